@@ -83,6 +83,9 @@ pub fn exec(op: &str, a: &[String]) -> Option<Reply> {
                     let mut g = lang::Gen::new(&mut rng);
                     g.program()
                 };
+                if crate::typed::risky_alloc(&other) {
+                    continue;
+                }
                 if let Ok(p2) = vrlrun::compile(&other) {
                     let _ = run_sig(&mut reused, &p2, &lang::gen_event(&mut rng), &lang::gen_metadata(&mut rng));
                 }
@@ -162,6 +165,17 @@ pub fn exec(op: &str, a: &[String]) -> Option<Reply> {
 
 /// a call of `f` in which every argument depends on the event: runtime-typed ones are event fields,
 /// literal-only ones (and a share of the others) are variables `v<i> = L1; if .c<i> == true { v<i> = L2 }`
+/// this check runs in-process: keep integers small so that no call allocates by argument
+/// (`set!(v, [2147483647], x)` pads an array with two billion nulls and aborts the process)
+fn small_ints(v: Value) -> Value {
+    match v {
+        Value::Integer(i) => Value::Integer(i.clamp(-1000, 1000)),
+        Value::Array(a) => Value::Array(a.into_iter().map(small_ints).collect()),
+        Value::Object(m) => Value::Object(m.into_iter().map(|(k, v)| (k, small_ints(v))).collect()),
+        v => v,
+    }
+}
+
 fn gen_dynamic_call(f: &dyn vrl::compiler::Function, rng: &mut Rng) -> Option<(String, Value, Value)> {
     use crate::sweep::*;
     let mut args: Vec<String> = Vec::new();
@@ -179,15 +193,17 @@ fn gen_dynamic_call(f: &dyn vrl::compiler::Function, rng: &mut Rng) -> Option<(S
         let kind = *rng.pick(&allowed);
         let text = if kind == K_REGEX || rng.chance(1, 2) {
             let pool = literal_pool(kind);
-            let (l1, l2) = (*rng.pick(pool), *rng.pick(pool));
+            // (integer literals with more than four digits are avoided for the same reason)
+            let small: Vec<&str> = pool.iter().copied().filter(|l| kind != K_INTEGER || l.len() <= 5).collect();
+            let (l1, l2) = (*rng.pick(&small), *rng.pick(&small));
             ea.insert(format!("c{i}").into(), Value::Boolean(rng.chance(1, 2)));
             eb.insert(format!("c{i}").into(), Value::Boolean(rng.chance(1, 2)));
             // through a variable reassigned under a condition: accepted where a literal is required
             prelude.push_str(&format!("v{i} = {l1}\nif .c{i} == true {{ v{i} = {l2} }}\n"));
             format!("v{i}")
         } else {
-            ea.insert(format!("p{i}").into(), runtime_pool(kind, rng));
-            eb.insert(format!("p{i}").into(), runtime_pool(kind, rng));
+            ea.insert(format!("p{i}").into(), small_ints(runtime_pool(kind, rng)));
+            eb.insert(format!("p{i}").into(), small_ints(runtime_pool(kind, rng)));
             format!(".p{i}")
         };
         if i > 0 && rng.chance(1, 3) || !p.required {
@@ -223,6 +239,9 @@ pub fn generate(sink: &mut Sink, rng: &mut Rng, n: u64) {
             }
             s
         };
+        if crate::typed::risky_alloc(&src) {
+            continue;
+        }
         done += 1;
         let event = lang::gen_event(rng);
         let meta = lang::gen_metadata(rng);
